@@ -229,7 +229,13 @@ func VerifE30Expand() {
 	// stored; the reference treats them like stored tuples
 	var ctxTuples *openfgav1.ContextualTupleKeys
 	if k := vt.ParamInt("ctx", 0); k > 0 {
-		ctxTuples = &openfgav1.ContextualTupleKeys{TupleKeys: st.SplitContextual(k)}
+		if vt.ParamInt("ctxdup", 0) == 1 {
+			// the contextual tuples are ALSO still stored (the same tuple stored and contextual: nothing rejects
+			// that); the leaf must still list every user once
+			ctxTuples = &openfgav1.ContextualTupleKeys{TupleKeys: st.ContextualCopies(k)}
+		} else {
+			ctxTuples = &openfgav1.ContextualTupleKeys{TupleKeys: st.SplitContextual(k)}
+		}
 	}
 	resp, xerr := q.Execute(ctx, &openfgav1.ExpandRequest{
 		StoreId:              "01HVMMBCMGZNT3SED4Z17ECXCB",
